@@ -278,6 +278,11 @@ func (r *transport) handleCacheMiss(
 	// A 304 on this path answers the client's own conditional request: it is not
 	// a representation and is never stored (RFC 9111 §3, §4.3.3).
 	if resp.StatusCode != http.StatusNotModified && r.ce.CanStoreResponse(resp, ccReq, ccResp) {
+		replaced := ""
+		if refIndex >= 0 && refIndex < len(refs) && refs[refIndex] != nil {
+			replaced = refs[refIndex].ResponseID
+		}
+		refs, refIndex = r.currentRefs(urlKey, refs, refIndex, replaced)
 		_ = r.rs.StoreResponse(req, resp, urlKey, refs, start, end, refIndex)
 	}
 	internal.CacheStatusMiss.ApplyTo(resp.Header)
@@ -368,6 +373,9 @@ func (r *transport) handleCacheHit(
 revalidate:
 	req = withConditionalHeaders(req, stored.Data.Header)
 	resp, start, end, err := r.roundTripTimed(req)
+	if err == nil {
+		refs, refIndex = r.currentRefs(urlKey, refs, refIndex, stored.ID)
+	}
 	ctx := internal.RevalidationContext{
 		URLKey:    urlKey,
 		Start:     start,
@@ -379,6 +387,33 @@ revalidate:
 		Freshness: freshness,
 	}
 	return r.vrh.HandleValidationResponse(ctx, req, resp, err)
+}
+
+// currentRefs re-reads the variant index of urlKey after the origin has been
+// asked. Other variants may have been stored in the meantime; writing back the
+// index read at the start of the request would drop them. The record of the
+// entry with the given ID is located again (-1 if it is gone). An index that
+// no longer exists was invalidated: nothing it listed is kept. If the index
+// cannot be read for another reason, the earlier one is used.
+func (r *transport) currentRefs(
+	urlKey string,
+	refs internal.ResponseRefs,
+	refIndex int,
+	id string,
+) (internal.ResponseRefs, int) {
+	current, err := r.cache.GetRefs(urlKey)
+	if errors.Is(err, driver.ErrNotExist) {
+		return nil, -1
+	}
+	if err != nil {
+		return refs, refIndex
+	}
+	if id == "" {
+		return current, -1
+	}
+	return current, slices.IndexFunc(current, func(ref *internal.ResponseRef) bool {
+		return ref != nil && ref.ResponseID == id
+	})
 }
 
 func (r *transport) serveFromCache(
@@ -483,12 +518,7 @@ func (r *transport) backgroundRevalidate(
 		// Other variants may have been stored while the origin was being asked:
 		// update the index as it is now, not the one read when the stale
 		// response was served.
-		if current, err := r.cache.GetRefs(urlKey); err == nil {
-			refs = current
-			refIndex = slices.IndexFunc(refs, func(ref *internal.ResponseRef) bool {
-				return ref.ResponseID == storedID
-			})
-		}
+		refs, refIndex = r.currentRefs(urlKey, refs, refIndex, storedID)
 		revalCtx := internal.RevalidationContext{
 			URLKey:    urlKey,
 			Start:     start,
